@@ -28,6 +28,9 @@ type Bucket struct {
 	// It may block (scheduler park). A non-nil error fails the operation
 	// without touching the bucket.
 	Hook func(op, name string) error
+	// IgnoreCancel: behave like the backends that do not look at the context (memory, fs): a call made with a
+	// cancelled context still goes through. Default: fail such calls, as the S3 backend does.
+	IgnoreCancel bool
 	// AfterMutate, if set, is called after each successful Store/Delete.
 	AfterMutate func(op, name string)
 }
@@ -47,7 +50,7 @@ func (b *Bucket) rec(op, name string, err error) {
 }
 
 func (b *Bucket) List(ctx context.Context, prefix string) (simpleblob.BlobList, error) {
-	if err := ctx.Err(); err != nil {
+	if err := ctx.Err(); err != nil && !b.IgnoreCancel {
 		return nil, err // like the S3 and fs backends, a cancelled context fails the call
 	}
 	if b.Hook != nil {
@@ -70,7 +73,7 @@ func (b *Bucket) List(ctx context.Context, prefix string) (simpleblob.BlobList, 
 }
 
 func (b *Bucket) Load(ctx context.Context, name string) ([]byte, error) {
-	if err := ctx.Err(); err != nil {
+	if err := ctx.Err(); err != nil && !b.IgnoreCancel {
 		return nil, err // like the S3 and fs backends, a cancelled context fails the call
 	}
 	if b.Hook != nil {
@@ -91,7 +94,7 @@ func (b *Bucket) Load(ctx context.Context, name string) ([]byte, error) {
 }
 
 func (b *Bucket) Store(ctx context.Context, name string, data []byte) error {
-	if err := ctx.Err(); err != nil {
+	if err := ctx.Err(); err != nil && !b.IgnoreCancel {
 		return err // like the S3 and fs backends, a cancelled context fails the call
 	}
 	if b.Hook != nil {
@@ -111,7 +114,7 @@ func (b *Bucket) Store(ctx context.Context, name string, data []byte) error {
 }
 
 func (b *Bucket) Delete(ctx context.Context, name string) error {
-	if err := ctx.Err(); err != nil {
+	if err := ctx.Err(); err != nil && !b.IgnoreCancel {
 		return err // like the S3 and fs backends, a cancelled context fails the call
 	}
 	if b.Hook != nil {
